@@ -69,17 +69,17 @@ theorem rat_mul_div_cancel {w f : Rat} (hw : w ≠ 0) : (w * f) / w = f := by
   rw [Rat.div_def, Rat.mul_comm w f, Rat.mul_assoc, Rat.mul_inv_cancel w hw, Rat.mul_one]
 
 /-- `HistogramFraction(-Inf, HistogramQuantile(q)) = q` -/
-theorem fraction_of_quantile_core (interp fb : XR → XR → XR → XR) {h : NHist XR} {L : List RB} {N : Rat}
-    (R : RHist h L N) (PW : L.Pairwise (fun a b => a.u ≤ b.l))
+theorem fraction_of_quantile_core (interp fb : XR → XR → XR → XR) (fixed : Bool) {h : NHist XR} {L : List RB} {N : Rat}
+    (R : RHist h L N) (hs : fixed = true ∨ h.sum ≠ .nan) (PW : L.Pairwise (fun a b => a.u ≤ b.l))
     (FBm : ∀ l u v1 v2 : Rat, l < v1 → v1 ≤ v2 → v2 < u → ∃ f1 f2, fb (.fin l) (.fin u) (.fin v1) = .fin f1 ∧
         fb (.fin l) (.fin u) (.fin v2) = .fin f2 ∧ 0 ≤ f1 ∧ f1 ≤ f2 ∧ f2 ≤ 1)
     (II : ∀ l u f : Rat, l < u → 0 ≤ f → f ≤ 1 → ∃ v, interp (.fin l) (.fin u) (.fin f) = .fin v ∧
         (f = 0 → v = l) ∧ (f = 1 → v = u) ∧ (0 < f → f < 1 → l < v ∧ v < u ∧ fb (.fin l) (.fin u) (.fin v) = .fin f))
     (W : ∀ b ∈ L, aLo h b < aHi h b) (AG : ∀ b ∈ L, adjLo h b = aLo h b ∧ adjHi h b = aHi h b)
     (q : Rat) (h0 : 0 ≤ q) (h1 : q ≤ 1) :
-    ∃ v, evalR interp (histogramQuantile (.fin q) h) = .fin v ∧
+    ∃ v, evalR interp (histogramQuantileWith fixed (.fin q) h) = .fin v ∧
       histogramFraction fb .ninf (.fin v) h = .fin q := by
-  obtain ⟨pre, b, rem, P, e⟩ := hq_eval R q h0 h1
+  obtain ⟨pre, b, rem, P, e⟩ := hq_eval fixed R hs q h0 h1
   have hbL : b ∈ L := by rw [P.split]; simp
   obtain ⟨hb, hc⟩ := R.ok b hbL
   obtain ⟨f0, f1⟩ := pick_frac P
